@@ -10,6 +10,7 @@ the correspondence, not modelled.
 -/
 import Ampverif.Lemmas.C15Pickle
 import Ampverif.Gen.C14Table
+import Ampverif.Gen.C15Hooks
 
 namespace Ampverif.Props.C15
 open Ampverif.Model Ampverif.Lemmas.C14 Ampverif.Lemmas.C15
@@ -88,6 +89,41 @@ theorem roundtrip_package (v : Variant) (hv : v.sound) (e : Expr)
     (h : wfTerm Ampverif.Gen.C14.classTable e = true) :
     deserialise Ampverif.Gen.C14.classTable (serialise v Ampverif.Gen.C14.classTable e) = some e :=
   roundtrip _ v hv e h
+
+/-! ### pickling hooks: what `serialise` assumes about the classes of the package
+
+`serialise` = class + `__getnewargs__`. The model knows two kinds of classes: table classes (pickled as
+the class and `_get_arguments(instance)`, the decorator's hook) and everything else (SymPy's default:
+`func(*args)`; the array/sum helper classes of the package are such uninterpreted heads). The list of
+classes that define (or inherit, or get patched with) a pickling hook of their own is regenerated from the
+package (`Gen/C15Hooks.lean`); a hook the model does not know about breaks `hooks_as_modelled`. -/
+
+/-- a helper class instance is pickled as `func(*args)`: nothing but its `args`. -/
+theorem helper_serialised_by_args (v : Variant) (tbl : ClassTable) (h : String) (es : List Expr) :
+    serialise v tbl (.app h es) = .op (.app h) (serialiseList v tbl es) := by
+  simp [serialise]
+
+/-- hand-written pickling hooks the model knows about: only the deprecated `UnevaluatedExpression`
+base class (`__getnewargs_ex__`; no table class and no helper class derives from it — the hook
+list is resolved through the MRO). -/
+def expectedOtherHooks : List (String × String × String) :=
+  [("ampform.sympy.deprecated.UnevaluatedExpression", "__getnewargs_ex__",
+    "ampform.sympy.deprecated.UnevaluatedExpression.__getnewargs_ex__")]
+
+/-- the pickling hooks found in the working tree are the modelled ones: (1) no hand-written hook
+besides the expected one; (2) every table class pickles through the decorator's `_get_arguments`;
+(3) only table classes do; (4) no helper class (uninterpreted head) has a hook of any kind. -/
+theorem hooks_as_modelled :
+    Ampverif.Gen.C15.otherHooks = expectedOtherHooks ∧
+    (Ampverif.Gen.C14.classTable.all fun ci =>
+        Ampverif.Gen.C15.decoratorHookClasses.contains ci.name) = true ∧
+    (Ampverif.Gen.C15.decoratorHookClasses.all fun c =>
+        (Ampverif.Gen.C14.classTable.find c).isSome) = true ∧
+    (Ampverif.Gen.C14.helperClasses.all fun h =>
+        !Ampverif.Gen.C15.decoratorHookClasses.contains h
+        && !(Ampverif.Gen.C15.otherHooks.map (·.1)).contains h
+        && !Ampverif.Gen.C15.attrsStateClasses.contains h) = true := by
+  decide +kernel
 
 /-! ### witness for the unsound variant -/
 
